@@ -88,6 +88,29 @@ class CumSumPlugin(PrimitiveLeafPlugin):
 
         input_for_cumsum = operand_val
 
+        # ONNX CumSum has no 8- / 16-bit integer variant: accumulate in int32 and cast back
+        # (the Cast wraps, and wrapping commutes with the partial sums).
+        operand_dtype = np.dtype(operand_var.aval.dtype)
+        narrow_int = operand_dtype in (
+            np.dtype(np.int8),
+            np.dtype(np.int16),
+            np.dtype(np.uint8),
+            np.dtype(np.uint16),
+        )
+        if narrow_int:
+            work_val = cast(
+                ir.Value,
+                ctx.builder.Cast(
+                    operand_val,
+                    _outputs=[ctx.fresh_name("cumsum_cast")],
+                    to=int(ir.DataType.INT32.value),
+                ),
+            )
+            work_val.type = ir.TensorType(ir.DataType.INT32)
+            _stamp_type_and_shape(work_val, operand_shape)
+            _ensure_value_metadata(ctx, work_val)
+            input_for_cumsum = work_val
+
         axis_const = _const_i64(ctx, np.asarray(axis, dtype=np.int64), "cumsum_axis")
 
         desired_name = getattr(out_spec, "name", None) or ctx.fresh_name("CumSum")
@@ -98,7 +121,7 @@ class CumSumPlugin(PrimitiveLeafPlugin):
                 axis_const,
                 exclusive=0,
                 reverse=1 if reverse else 0,
-                _outputs=[desired_name],
+                _outputs=[ctx.fresh_name("CumSum") if narrow_int else desired_name],
             ),
         )
 
@@ -107,6 +130,16 @@ class CumSumPlugin(PrimitiveLeafPlugin):
             np.dtype(getattr(out_var.aval, "dtype", operand_var.aval.dtype)),
             ctx.builder.enable_double_precision,
         )
+        if narrow_int:
+            result.type = ir.TensorType(ir.DataType.INT32)
+            _stamp_type_and_shape(result, out_shape)
+            _ensure_value_metadata(ctx, result)
+            result = cast(
+                ir.Value,
+                ctx.builder.Cast(
+                    result, _outputs=[desired_name], to=int(out_dtype_enum.value)
+                ),
+            )
         result.type = ir.TensorType(out_dtype_enum)
         _stamp_type_and_shape(result, out_shape)
         _ensure_value_metadata(ctx, result)
